@@ -49,7 +49,7 @@ ASSUMPTIONS = [
     "behavioural equality is judged on a fixed script: encode every request of every ECU variant with searched parameter values, decode the result, encode/decode the first positive response; results and exception type names must agree",
 ]
 # gen:deco:variable-group(-ref) join MUST_HIT once pending_fixes/C11-variable-group-parser.diff is applied (capability-gated)
-MUST_HIT = ["generated", "gen:deco:company-datas", "gen:deco:admin-data:layer", "gen:deco:admin-data:dop", "gen:deco:admin-data:request", "gen:deco:admin-data:service", "gen:deco:funct-class", "gen:deco:audience", "gen:deco:state-chart", "gen:deco:single-ecu-job", "gen:deco:library", "gen:deco:related-diag-comm", "gen:deco:dyn-defined-spec", "gen:deco:diag-variable", "gen:deco:table-diag-comm-connector", "gen:deco:sub-component", "gen:deco:unit-spec", "gen:deco:constr", "gen:deco:linked-dtc-dop", "gen:deco:empty-long-name",
+MUST_HIT = ["generated", "gen:deco:variable-group", "gen:deco:company-datas", "gen:deco:admin-data:layer", "gen:deco:admin-data:dop", "gen:deco:admin-data:request", "gen:deco:admin-data:service", "gen:deco:funct-class", "gen:deco:audience", "gen:deco:state-chart", "gen:deco:single-ecu-job", "gen:deco:library", "gen:deco:related-diag-comm", "gen:deco:dyn-defined-spec", "gen:deco:diag-variable", "gen:deco:table-diag-comm-connector", "gen:deco:sub-component", "gen:deco:unit-spec", "gen:deco:constr", "gen:deco:linked-dtc-dop", "gen:deco:empty-long-name",
             "gen:deco:pos-response-suppressable", "gen:deco:sdg:STRUCTURE", "gen:deco:sdg:PARAM", "gen:const:bytefield", "gen:mux", "gen:dlfield", "gen:table", "gen:dtc", "gen:emfield", "gen:dct:paramlen", "example", "kind:samename", "samename-entry", "text-with-tab-lf", "kind:text", "kind:raw", "kind:bool", "kind:int", "kind:enum", "kind:sub",
             "kind:sublist", "kind:xhtml", "composed", "entry:load_directory", "entry:load_files",
             "entry:load_pdx_file-permuted", "roundtrip-ok", "behaviour-encoded"]
